@@ -138,6 +138,34 @@ Theorem C07_inner_same_mech :
 Proof. exact inner_same_mech. Qed.
 Print Assumptions C07_inner_same_mech.
 
+(* Histories on ONE connection object: any number of decorated calls one after the other, each issued from the main
+   thread or from another one, with its own limit (0 = none) and NO_TERMINATE setting, the device answering or going
+   silent - whatever was run before on that object:
+   the mechanism of call n is select_mech of call n's own context; outcome, duration and transport state after call n
+   are what the call alone prescribes (a call that cannot complete raises ScrapliTimeout at its own limit, one that
+   the device answers is left alone); handler, timer interval, workers, lock, tasks are after every call what they
+   were before the first.  (call_ok carries the region of the known finding: thread mechanism => NO_TERMINATE off
+   and a read that closing the transport ends.) *)
+Theorem C07_history_independent :
+  forall tc coro cls calls s,
+    user_handler s = true ->
+    Forall (fun c => call_ok (call_mech tc coro cls c) c) calls ->
+    let rs := run_hist tc coro cls calls s in
+    map fst rs = map (call_mech tc coro cls) calls /\
+    map seen rs = want_hist calls (now s) /\
+    Forall (fun x => keeps s (rst (snd x))) rs.
+Proof. exact hist_independent. Qed.
+Print Assumptions C07_history_independent.
+
+(* a selection worked out once and kept on the connection object (NOT the code as it is: tied by
+   C07_generated_per_call_selection and the history scenarios of the correspondence run) does not have this property *)
+Theorem C07_history_cached_selection_refuted :
+  exists tc cls calls s,
+    user_handler s = true /\ Forall (fun c => call_ok (call_mech tc false cls c) c) calls /\
+    map fst (run_hist_cached tc false cls None calls s) <> map (call_mech tc false cls) calls.
+Proof. exact cached_selection_differs. Qed.
+Print Assumptions C07_history_cached_selection_refuted.
+
 (* ---- tie to the current source tree (regenerated on every run, decided by computation) ---- *)
 
 (* every decorated function has its own entry in the message map (no shadowed key), none is the default *)
@@ -174,3 +202,13 @@ Theorem C07_generated_structure :
   /\ 0 < gen_default_timeout_ops /\ 0 < gen_default_timeout_transport.
 Proof. repeat split; vm_compute; reflexivity. Qed.
 Print Assumptions C07_generated_structure.
+
+(* no state is kept between calls: the sync decorate() decides the mechanism by `<class name of the transport> in
+   (<constants>) or _IS_WINDOWS or threading.current_thread() is not threading.main_thread()`, evaluated inside the
+   wrapper on every call (the three disjuncts of select_mech, in a test that guards the worker-thread branch), and
+   none of the functions of decorators.py reachable from timeout_wrapper stores into an attribute, a subscript, a
+   global / nonlocal name, calls setattr-like or container-mutating methods, or is memoised *)
+Theorem C07_generated_per_call_selection :
+  (gen_selection_per_call_context, gen_wrapper_keeps_no_state) = (true, true).
+Proof. vm_compute; reflexivity. Qed.
+Print Assumptions C07_generated_per_call_selection.
